@@ -714,7 +714,7 @@ func reverseFault(c *h.Case, kind string) {
 	}
 	defer srv.Close()
 	client := srv.NewClient()
-	client.Timeout = 5 * time.Second
+	client.Timeout = 10 * time.Minute // the provider's poll must not give up on the client side: a call handed to an abandoned poll is lost by design
 	prov := reverse.NewProvider(client, "p1")
 	prov.RetryInterval = 10 * time.Millisecond
 	prov.AddFunction(func(i int) int { return i + 1 }, "ok")
@@ -736,7 +736,7 @@ func reverseFault(c *h.Case, kind string) {
 		panic("provider missing method panics")
 	})
 	go prov.Listen()
-	defer func() { go prov.Close() }()
+	defer closeProvider(prov)
 	for i := 0; i < 500 && !caller.Exists("p1"); i++ {
 		time.Sleep(10 * time.Millisecond)
 	}
@@ -786,4 +786,15 @@ func reverseFault(c *h.Case, kind string) {
 		c.Violation("reverse-calls-after-the-fault-fail:"+kind, fmt.Sprintf("ok(41) = %d, %v", got, err), nil)
 	}
 	r.Distinct("reverse|" + kind)
+}
+
+// closeProvider stops a provider and waits (bounded) until its poll has ended, so that the
+// server can be closed afterwards: the mock server cannot be closed while a poll is parked in it.
+func closeProvider(p *reverse.Provider) {
+	done := make(chan struct{})
+	go func() { p.Close(); close(done) }()
+	select {
+	case <-done:
+	case <-time.After(5 * time.Second):
+	}
 }
